@@ -48,10 +48,36 @@ __all__ = (
 _FIRST_CONST = Constant.first()
 NOARG = object()
 
+# Verification hook (guarded): seedable, address-independent hashing of nodes
+# and branches, so that hash-set iteration order is a replayable schedule.
+import os as _os
+_VERIF = bool(_os.environ.get('PYTABLEAUX_VERIF'))
+_verif_state = [0, 0]
+
+def _verif_reseed(seed: int = 0) -> None:
+    'Reset the creation serial and select the tie-break schedule.'
+    _verif_state[0] = int(seed)
+    _verif_state[1] = 0
+
+def _verif_hash(obj) -> int:
+    try:
+        return obj._verif_hash
+    except AttributeError:
+        pass
+    _verif_state[1] += 1
+    x = (_verif_state[1] + _verif_state[0] * 0x9E3779B97F4A7C15) & 0xFFFFFFFFFFFFFFFF
+    x = ((x ^ (x >> 30)) * 0xBF58476D1CE4E5B9) & 0xFFFFFFFFFFFFFFFF
+    x = ((x ^ (x >> 27)) * 0x94D049BB133111EB) & 0xFFFFFFFFFFFFFFFF
+    x = (x ^ (x >> 31)) & 0x0FFFFFFFFFFFFFFF
+    obj._verif_hash = x
+    return x
+
 class Node(MapCover, abcs.Copyable, metaclass=NodeMeta):
     'A tableau node.'
 
     __slots__ = ('step', 'ticked')
+    if _VERIF:
+        __slots__ += ('_verif_hash',)
 
     def __init__(self, mapping = EMPTY_MAP, /):
         if mapping is self:
@@ -116,6 +142,8 @@ class Node(MapCover, abcs.Copyable, metaclass=NodeMeta):
         return self is other
 
     def __hash__(self):
+        if _VERIF:
+            return _verif_hash(self)
         return id(self)
 
     __delattr__ = Emsg.Attribute.razr
@@ -258,6 +286,8 @@ class Branch(SequenceSet[Node], EventEmitter, abcs.Copyable, metaclass=BranchMet
         '_worlds',
         'constants',
         'worlds')
+    if _VERIF:
+        __slots__ += ('_verif_hash',)
 
     INDEX_KEYS = (
         (Node.Key.sentence,),
@@ -497,6 +527,8 @@ class Branch(SequenceSet[Node], EventEmitter, abcs.Copyable, metaclass=BranchMet
         return self is other
 
     def __hash__(self):
+        if _VERIF:
+            return _verif_hash(self)
         return id(self)
 
     def __contains__(self, node):
